@@ -20,11 +20,13 @@ last centroid being input singletons, what makes min/max exact across `merge(oth
 Full strength: td_weight (every numeric instance, NaN included), td_minmax_exact, td_centroids_sorted,
 td_means_within, td_extremes_singleton, td_rank_range_mono, td_cdf_pmf.
 Quantile: range, q(0) = min, q(1) = max proved for both argument orders of the interpolation call
-(`td_quantile_mono_partial`); monotonicity in the rank is FALSE of the current code
-(`td_quantile_mono_full_false`, witness replayed by the check, known finding `quantile-not-monotone`) and
-PROVED at full strength for the reference argument order, i.e. for the code with the proposed one-line fix
-(`td_quantile_mono_fixed`).  The translator reads the argument order from the header, so the model (and which of the
-two theorems speaks about the code) follows the source.
+(`td_quantile_mono_partial`); monotonicity in the rank was FALSE of the pinned code
+(`td_quantile_mono_full_false`: the interpolation call had its two weights swapped — repaired in /repo by the
+commit "fix: tdigest get_quantile interpolated between centroids with swapped weights", known_findings.json entry
+`quantile-not-monotone` = fixed) and is PROVED at full strength for the reference argument order
+(`td_quantile_mono_fixed`).  The translator reads the argument order from the header on every run
+(`DSGen.tdigest_QUANTILE_WEIGHTS_AS_W1_W2`); `td_quantile_mono_current` is the full statement for the constants
+and argument order in the header NOW — if the swap ever returns, that obligation no longer checks.
 -/
 import DSProofs.Lemmas.TDigestQuantMono
 import DSGen.TDigest
@@ -218,7 +220,18 @@ theorem td_quantile_mono_fixed (tun : Tun) (hq : tun.quantW1W2 = false) : td_qua
   exact ⟨td_quantile_mono_partial sc hsc tun h hne,
     fun r1 r2 q1 q2 h0 h12 h1 e1 e2 => getQuantile_mono sc hsc tun hq _ i he r1 r2 h0 h12 h1 q1 q2 e1 e2⟩
 
-/-- the header constants in force, with the interpolation call as the CURRENT code has it:
+/-- the header constants AND the argument order of the interpolation call as the header has them now -/
+def tunCurrent : Tun :=
+  { bufMul := DSGen.tdigest_BUFFER_MULTIPLIER, fudgeThr := DSGen.tdigest_FUDGE_THRESHOLD,
+    fudgeSmall := DSGen.tdigest_FUDGE_SMALL_K, fudgeLarge := DSGen.tdigest_FUDGE_LARGE_K,
+    capMul := DSGen.tdigest_CAPACITY_K_MULT, comprMul := DSGen.tdigest_COMPRESSION_K_MULT,
+    minK := DSGen.tdigest_MIN_K, quantW1W2 := DSGen.tdigest_QUANTILE_WEIGHTS_AS_W1_W2 }
+
+/-- FULL STATEMENT (range, q(0) = min, q(1) = max, monotone in the rank) for the code as it is now -/
+theorem td_quantile_mono_current : td_quantile_mono_full tunCurrent :=
+  td_quantile_mono_fixed tunCurrent (by decide)
+
+/-- the header constants in force, with the interpolation call as the PINNED (pre-fix) code had it:
 `weighted_average(mean[i], w1, mean[i+1], w2)` -/
 def tunAsCoded : Tun :=
   { bufMul := DSGen.tdigest_BUFFER_MULTIPLIER, fudgeThr := DSGen.tdigest_FUDGE_THRESHOLD,
@@ -232,7 +245,7 @@ def witnessScale : Scale Rat := { normalizer := fun _ _ => 1 / 4, max := fun q n
 def witnessHist : Hist Rat :=
   .compress (.update (.update (.update (.update (.update (.update (.new 10) 1) 2) 3) 4) 5) 6)
 
-/-- get_quantile of the current code is NOT non-decreasing: q(5/12) = 5 > 11/3 = q(7/12). -/
+/-- get_quantile of the pinned (pre-fix) code is NOT non-decreasing: q(5/12) = 5 > 11/3 = q(7/12). -/
 theorem td_quantile_mono_full_false : ¬ td_quantile_mono_full tunAsCoded := by
   intro hfull
   have hsc : ScaleOK witnessScale := (scaleHyp_k2_shape _).ok
